@@ -21,8 +21,9 @@ func c16CompareContents(chunkA, chunkB bool, failA, failB int) {
 	A.chunked, B.chunked = chunkA, chunkB
 	A.maxCall, B.maxCall = calls, calls
 	A.failRead, B.failRead = failA, failB
-	vp.Unwind(calls + 2)
+	vp.Unwind(calls + 3)
 	vp.NoPanic()
+	vp.MaxLoop(calls + 1) // every round reads at least one byte or ends the comparison
 	err := compareFileContents(A, B, "f")
 	vp.AllowPanic()
 
@@ -72,3 +73,29 @@ func VP_C16_compare_contents_err_a0() { c16CompareContents(false, false, 0, -1) 
 func VP_C16_compare_contents_err_a1() { c16CompareContents(false, false, 1, -1) }
 func VP_C16_compare_contents_err_b0() { c16CompareContents(false, false, -1, 0) }
 func VP_C16_compare_contents_err_b1() { c16CompareContents(true, true, -1, 1) }
+
+// VP_C16_compare_contents_big: two sparse all-zero files of arbitrary lengths 0..3*32 KiB+9, i.e.
+// longer than the 32 KiB comparison buffer, both read with full reads (EOF timing arbitrary):
+// the multi-round logic of the loop. Oracle: nil <=> equal lengths.
+func VP_C16_compare_contents_big() {
+	max := vp.Bound("biglen", 2*32768+9, 3*32768+9)
+	fa := c16BigFile("f", "a", max)
+	fb := c16BigFile("f", "b", max)
+	A := c16NewFS("A", c16Dir(".", fa))
+	B := c16NewFS("B", c16Dir(".", fb))
+	vp.Unwind(8)
+	vp.NoPanic()
+	vp.MaxLoop(5)
+	err := compareFileContents(A, B, "f")
+	vp.AllowPanic()
+	if err == nil {
+		vp.Assert(fa.size == fb.size, "nil only if the lengths are equal")
+		if fa.size > 32768 {
+			vp.Cover("equal files longer than the buffer reported equal")
+		}
+		vp.Cover("big files reported equal")
+	} else {
+		vp.Assert(fa.size != fb.size, "equal all-zero files are reported equal")
+		vp.Cover("big files reported different")
+	}
+}
